@@ -10,7 +10,7 @@ import common as C
 import pgen
 
 CORE = {"atom", "panic", "yield", "yieldx", "block", "if", "switch", "for", "break", "continue", "return",
-        "decl", "inc", "use", "closure", "call", "fallthrough"}
+        "decl", "inc", "use", "closure", "call", "fallthrough", "yieldfrom", "rangeiter"}
 
 
 def norm(t):
@@ -44,6 +44,12 @@ def src_stmt(s):
         return [{"s": "yield", "v": s["x"]}]
     if k in ("break", "continue", "return", "fallthrough"):
         return [{"s": k}]
+    if k == "yieldfrom":
+        import lowering
+        return lowering.yieldfrom(s)
+    if k == "rangeiter":
+        import lowering
+        return lowering.rangeiter(s, src_stmts(s["b"]))
     if k == "block":
         return [{"s": "block", "b": src_stmts(s["b"])}]
     if k == "if":
